@@ -101,6 +101,13 @@ func (e *Engine) verifyCase(fn *ssa.Function, con *Contract, ci int, sc *SpecCas
 		}
 		fr.bind[p.Name()] = args[i]
 	}
+	for n, i := range con.Alias {
+		if i < len(args) {
+			if _, have := fr.bind[n]; !have {
+				fr.bind[n] = args[i]
+			}
+		}
+	}
 	var bound []Value
 	for _, fv := range fn.FreeVars {
 		v := e.fresh(st, fv.Type(), fv.Name())
